@@ -633,7 +633,36 @@ func (e *Exec) initialState() *State {
 // ---------- stubs filled in by later modules ----------
 
 func (e *Exec) sharedAccess(st *State, fr *Frame, p *PtrV, pos token.Pos)        {}
-func (e *Exec) sharedAccessMap(st *State, fr *Frame, m ssa.Value, pos token.Pos) {}
+// sharedAccessMap: a map read/write/delete. If the map was loaded from a field declared `shared ... guarded_by`,
+// the guarding mutex (a sibling field path of the same object) must be in the ghost lock-set.
+func (e *Exec) sharedAccessMap(st *State, fr *Frame, m ssa.Value, pos token.Pos) {
+	if e.discovery > 0 || e.specMode > 0 || len(e.specs.shared) == 0 {
+		return
+	}
+	ld, ok := m.(*ssa.UnOp)
+	if !ok {
+		return
+	}
+	fa, ok := ld.X.(*ssa.FieldAddr)
+	if !ok {
+		return
+	}
+	pv, ok := fr.env[fa].(*PtrV)
+	if !ok || pv.Kind != PObj {
+		return
+	}
+	key, _ := fieldKey(rootType(pv), pv.Path)
+	for _, sd := range e.specs.shared {
+		if !strings.HasSuffix(key, "."+sd.What) && key != sd.What {
+			continue
+		}
+		// guard: replace the trailing field path by the guard's path
+		base := strings.TrimSuffix(key, sd.What)
+		gk := base + sd.Guard + ".$held"
+		held := Select(st.heap(gk, ArrSort(SInt, SBool)), pv.Base)
+		e.oblige(st, fr, "guarded."+sd.Label, pos, held)
+	}
+}
 func (e *Exec) lockAcquired(st *State, l Loc)                                    {}
 
 func (e *Exec) selectInstr(st *State, fr *Frame, x *ssa.Select) []Outcome {
